@@ -148,3 +148,33 @@ package aggregator
 //@ props C06 C05
 //@ requires ctx != nil
 //@ ensures [ends-only-with-the-run] result == nil && done(ctx)
+
+// ---------------------------------------------------------------- the remaining small pieces
+
+// The discarding aggregator gives a borrowed sample back and keeps nothing.
+//@ func NewDiscard
+//@ props C06
+//@ modifies nothing
+//@ ensures typeis(result, discard)
+
+//@ func (discard) Report
+//@ props C06 C11
+//@ modifies nothing
+//@ at call coreutil.ReturnSampleIfBorrowed assert [the-reported-sample] arg(s) == s0
+
+// jsonlines takes the encoder aggregator defaults (buffer, flush interval, queue sizes).
+//@ func DefaultJSONLinesAggregatorConfig
+//@ props C17 C06
+//@ ensures result.EncoderAggregatorConfig == result_of(DefaultEncoderAggregatorConfig, 0)
+
+//@ func (l *logging) handle
+//@ props C06
+//@ nilsafe
+//@ env [a-logging-aggregator-has-its-logger] l.log != nil
+//@ modifies nothing
+
+//@ func (err *SomeSamplesDropped) Error
+//@ props C06
+//@ nilsafe
+//@ requires err != nil
+//@ modifies nothing
